@@ -145,3 +145,29 @@ def preempt_lockstep_scenario(seed):
     ta = rng.randint(1, d * 2)
     arrivals[ta] = [nb + k for k in range(nq)]
     return {"layer": "S", "algo": "priority", "cfg": cfg, "pipes": pipes, "steps": [], "arrivals": arrivals}
+
+
+def join_scenario(seed, algo="priority"):
+    """single-operator containers on several roomy pools, a pipeline a -> {b, c (, e)} -> d whose middle operators take equally long: they are started in the
+    same round, finish in the same tick and are reported together, at which moment the join operator d becomes ready.  It must be queued and assigned once."""
+    rng = random.Random(seed)
+    tps = rng.choice([1, 2, 4])
+    cfg = {"tps": tps, "multi": False, "over": algo == "overbook", "npools": rng.choice([2, 3]), "cpus": rng.choice([16, 64]), "ram": fstr(rng.choice([64, 256]))}
+    small = F(1, 64)
+    d = rng.randint(1, 3)
+    width = rng.choice([2, 2, 3])
+    ops = [gen_e.simple_op(tps, rng.randint(1, 2), fixed=small)]
+    for _ in range(width):
+        ops.append(gen_e.simple_op(tps, d, fixed=small, parents=[0]))
+    ops.append(gen_e.simple_op(tps, rng.randint(1, 2), fixed=small, parents=list(range(1, width + 1))))
+    if rng.random() < 0.5:
+        ops.append(gen_e.simple_op(tps, 1, fixed=small, parents=[width + 1]))
+    pipes = [{"prio": rng.choice([1, 2, 3]), "ops": ops}]
+    for _ in range(rng.randint(0, 2)):
+        pipes.append({"prio": rng.choice([1, 2, 3]), "ops": [gen_e.simple_op(tps, rng.randint(1, 3), fixed=small)]})
+    nticks = 40
+    arrivals = [[] for _ in range(nticks)]
+    arrivals[0] = [0]
+    for k in range(1, len(pipes)):
+        arrivals[rng.randint(0, 6)].append(k)
+    return {"layer": "S", "algo": algo, "cfg": cfg, "pipes": pipes, "steps": [], "arrivals": arrivals}
